@@ -21,7 +21,7 @@ def spec(th, seed):
     units.append(U('C04_alias.wxyz', 'mon/alias.cpp', 'plain', defs=['-DALIAS_PROP=4', '-DGLM_FORCE_QUAT_DATA_WXYZ']))
     if th:
         units.append(U('C04_alias.clang', 'mon/alias.cpp', 'clang', defs=['-DALIAS_PROP=4']))
-        units.append(U('C04_alias.simd-sse2.O0', 'mon/alias.cpp', 'plainO0', defs=['-DALIAS_PROP=4', '-DGLM_FORCE_INTRINSICS', '-DGLM_FORCE_DEFAULT_ALIGNED_GENTYPES', '-msse2'], scale=0.2))
+        units.append(U('C04_alias.simd-sse41.O0', 'mon/alias.cpp', 'plainO0', defs=['-DALIAS_PROP=4', '-DGLM_FORCE_INTRINSICS', '-DGLM_FORCE_DEFAULT_ALIGNED_GENTYPES', '-msse4.1'], scale=0.2))
     return {
         'units': units,
         'rule': 'aliasing supplement (mon/alias.cpp): every compound/in-place/out-parameter form is run twice from the same state, once with the aliased operand replaced by a copy, and the final states must be bitwise identical; float and double, both quaternion layouts (default XYZW and GLM_FORCE_QUAT_DATA_WXYZ). Unit quaternions (normalised in long '
